@@ -17,6 +17,7 @@ mod fam_sync;
 mod fam_hexcol;
 mod fam_edit;
 mod fam_chg;
+mod fam_robust;
 mod gen;
 mod model;
 
@@ -49,6 +50,7 @@ fn main() {
         "hexcol" => fam_hexcol::run(&mut rng, &tier, out),
         "edit" => fam_edit::run(&mut rng, &tier, out),
         "chg" => fam_chg::run(&mut rng, &tier, out),
+        "robust" => fam_robust::run(&mut rng, &tier, out),
         _ => {
             eprintln!("unknown family {}", fam);
             std::process::exit(2);
